@@ -116,7 +116,12 @@ func (s *Subscriber[H]) Stop(context.Context) (err error) {
 	err = errors.Join(err, s.metrics.Close())
 	// we must close the topic first and then unregister the validator
 	// this ensures we never get a message after the validator is unregistered
-	err = errors.Join(err, s.topic.Close())
+	if cerr := s.topic.Close(); cerr != nil {
+		// the topic stays open as long as there are Subscriptions that were not cancelled, and they
+		// keep receiving messages: leave the validator in place, without it anything that arrives
+		// would reach them unvalidated (and make NextHeader panic)
+		return errors.Join(err, cerr)
+	}
 	err = errors.Join(err, s.pubsub.UnregisterTopicValidator(s.pubsubTopicID))
 	return err
 }
